@@ -25,6 +25,12 @@ def bucket_loops(b):
     res = []
     for n in b.calls_to("Iterator::next"):
         base = ("field", ("downcast", n.result_term(), "Some"), "0")
+        recv = peel(n.args[0], transparent=["IntoIterator::into_iter"])
+        if is_call(recv, "slice::windows") and peel(recv[2][0], transparent=["Deref::deref", "Vec::as_slice", "Vec::as_ref"]) == P(1) and const_int(recv[2][1]) == 2:
+            # `for pair in buckets.windows(2)`: the element is pair[0], its successor pair[1]; the last bound is in no pair's first place
+            si = b.switch_info(n.target)
+            res.append((n, ("win", base, 0), None, [t for v, t in si[1] if v == 1][0], [t for v, t in si[1] if v == 0][0], (P(1), ["windows"], [])))
+            continue
         e = elem_of(base)
         if not e or peel(e[0]) != P(1):
             continue
@@ -40,6 +46,9 @@ def bucket_loops(b):
 
 def is_elem_value(t, elem):
     """t is the f64 value of the loop element (through refs/derefs)."""
+    if isinstance(elem, tuple) and elem and elem[0] == "win":
+        t = peel(t)
+        return isinstance(t, tuple) and len(t) == 3 and t[0] == "index" and peel(t[1]) == elem[1] and const_int(t[2]) == elem[2]
     return peel(t) == elem
 
 
@@ -53,7 +62,7 @@ def rule_R1_R2(ctx, f):
     ctx.rule("R2", "strict increase: for adjacent elements (i, i+1 from one enumeration) the pair is rejected unless a < b — Ge(a,b) true->Err, Lt(a,b) false->Err, or mirrored — "
                    "and the test runs for every i < len-1")
     loops = bucket_loops(b)
-    ctx.ob("R1", "gate|element-loop", len(loops) == 1 and not [a for a in loops[0][5][1] if a not in ("iter", "into_iter", "enumerate")] if loops else False,
+    ctx.ob("R1", "gate|element-loop", len(loops) == 1 and (loops[0][5][1] == ["windows"] or not [a for a in loops[0][5][1] if a not in ("iter", "into_iter", "enumerate")]) if loops else False,
            "check_and_adjust_buckets must iterate all elements of the bucket list in one loop (found %d loops)" % len(loops), site=b.raw["span"]["at"])
     if len(loops) != 1:
         return
@@ -90,6 +99,26 @@ def rule_R1_R2(ctx, f):
                     pre_gate = True
     leak = b.reach(body_entry, avoid_edges=refining)
     ok = pre_gate or (n.bb not in leak and exit_t not in leak)
+    if ok and not pre_gate and e[1] == ["windows"]:
+        # the last bound is the first of no pair: it must be NaN-gated after the loop, on every path to the accepting exit (this is also the only test of a one-element list)
+        def is_last(t):
+            t = peel(t, transparent=["Option::unwrap", "Option::expect", "Option::unwrap_unchecked"])
+            return is_call(t, ["slice::last", "Vec::last"]) and peel(t[2][0], transparent=["Deref::deref", "Vec::as_slice"]) == P(1)
+        tail_ref = []
+        for bi in b.reach(exit_t):
+            be = b.bool_edges(bi)
+            if not be:
+                continue
+            cnd, tt, tf = be
+            if is_call(cnd, ["f64::is_nan"]) and is_last(cnd[2][0]):
+                tail_ref.append((bi, tf))
+            elif is_call(cnd, ["f64::is_finite", "f64::is_normal"]) and is_last(cnd[2][0]):
+                tail_ref.append((bi, tt))
+            elif cnd[0] == "binop" and cnd[1] in CMP and (is_last(cnd[2]) or is_last(cnd[3])):
+                tail_ref.append((bi, tt))
+        _, okb_ = result_assign_blocks(b)
+        tail_leak = b.reach(exit_t, avoid_edges=tail_ref)
+        ok = bool(okb_) and not any(x in tail_leak for x in okb_)
     # the loop exit itself is only reachable from the header, so "every element" includes the last/only one
     ctx.ob("R1", "gate|nan-safe", ok,
            "a NaN bound can pass the acceptance gate: some path through the loop body reaches the next iteration without any comparison/is_nan test that is false on NaN "
@@ -107,6 +136,8 @@ def rule_R1_R2(ctx, f):
         op, x, y = be[0][1], be[0][2], be[0][3]
 
         def nxt(t):
+            if isinstance(elem, tuple) and elem and elem[0] == "win":
+                return is_elem_value(t, ("win", elem[1], 1))
             t = peel(t, transparent=["Index::index"]) if False else peel(t)
             # buckets.get(i + 1) -> Some(next): the Some arm is itself the `i + 1 < len` guard
             if isinstance(t, tuple) and len(t) == 3 and t[0] == "field" and isinstance(t[1], tuple) and t[1][0] == "downcast" and t[1][2] == "Some":
@@ -169,6 +200,9 @@ def rule_R1_R2(ctx, f):
                     g_ok = True
                 if op == "Ne" and idx is not None and peel(x) == idx and len_minus_1(y) and b.edge_dominates(bj, g[1], bi):
                     g_ok = True
+        if e[1] == ["windows"]:
+            # every window is a pair (i, i+1), all of them are visited: the test must lie on every path through the body that reaches the next window
+            g_ok = b.all_paths_pass(body_entry, [bi], dst_set={n.bb})
         if via_get and not g_ok:
             gc = [c for c in b.calls() if c.bb == via_get[0][3]]
             # the lookup of the successor happens for every element that passed the NaN test
